@@ -23,8 +23,10 @@ inline TypeDepth type_of(int i){ static const TypeDepth t[] = {type_level, type_
 // limit vectors (index 0 = none)
 inline std::vector<int> limits_of(int i, int d){
     static const int L[6][2] = {{0,0}, {0,2}, {1,-1}, {-1,1}, {2,1}, {1,1}};
-    if (i == 0) return std::vector<int>(); std::vector<int> r(d); for(int j=0;j<d;j++) r[j] = L[i][j < 2 ? j : 1]; if (i == 6) r.assign(d, 3); return r;
+    if (i == 0) return std::vector<int>(); if (i >= 6) return std::vector<int>((size_t) d, 3); std::vector<int> r(d); for(int j=0;j<d;j++) r[j] = L[i][j < 2 ? j : 1]; return r;
 }
+
+static bool fresh_setcoef_allowed = false; // set by the explorer for the differential properties
 
 // reference state ----------------------------------------------------------------------------------
 struct Ref {
@@ -36,6 +38,7 @@ struct Ref {
     bool coeffs_stale = false;                // after removePointsByHierarchicalCoefficient the kept coefficients are not those of the kept values (until the next load)
     std::set<Pt> stale;                       // loaded points whose stored value is not a supplied one (after a coefficient overwrite) until they are re-supplied
     std::set<Pt> present;                     // every point the grid has held or been given so far (C08: domination of new limits)
+    std::set<Pt> present_loaded;              // the subset that was loaded or delivered (a pending refinement is replaced by the next refinement call: it does not bind new limits)
 };
 
 inline bool isLocalFam(const TasmanianSparseGrid &g){ return g.isLocalPolynomial() || g.isWavelet(); }
@@ -151,7 +154,8 @@ inline bool apply(TasmanianSparseGrid &g, const Op &op, Ref &r, ApplyInfo *info 
     }
     if (k == "clear"){ if (g.getNumNeeded() == 0 || g.getNumLoaded() == 0 || constr) return false; g.clearRefinement(); return true; }
     if (k == "setcoef"){
-        if (outs == 0 || constr || g.getNumLoaded() == 0) return false; // a pending refinement is legal: the call discards it
+        if (outs == 0 || constr) return false; // a pending refinement is legal: the call discards it
+        if (g.getNumLoaded() == 0 && !(fresh_setcoef_allowed && g.getNumNeeded() > 0)) return false; // on a grid without values the call turns the needed points into loaded ones (explored for C06 / C11 only)
         size_t n = (size_t) g.getNumPoints() * outs * (g.isFourier() ? 2 : 1); std::vector<double> c(n); for(size_t i=0;i<n;i++) c[i] = std::cos(0.7 * i + 0.1 + op.a) / (1.0 + 0.05 * i);
         { auto xl = g.getLoadedPoints(); for(size_t i=0;i+d<=xl.size();i+=d) r.stale.insert(Pt(xl.begin()+i, xl.begin()+i+d)); }
         g.setHierarchicalCoefficients(c); r.vals_valid = false; return true;
